@@ -6,7 +6,7 @@ RULE = (
     "same schedule x template x extra-check enumeration as C03, every schedule yielded by scheduler_backtrack; oracle per result: inner dims span exactly the "
     "template's index subspace per operand (exact rational row-space equality, broadcast-row rule), inner bounds <= template bounds, every requested "
     "constraint re-evaluated by an independent implementation, scheduler(schedule_idx=k) = k-th result; plus TemplatePattern.matches against exact row-space "
-    "equality for all pairs of small integer matrices. distinct = distinct cases; non-trivial = at least one schedule returned / matcher said True"
+    "equality for all pairs of small integer matrices; plus the dart-scheduler PASS itself on convolution-like snax_gemmx operations (i8 x i8 -> i32, x[oh+kh, ow+kw, c] * w[f, kh, kw, c], every loop order with oh outermost (thorough: all 720) x 4 (7) kernel/channel size vectors): the schedule the pass returns must fit the template, be pure output stationary and respect the 8-byte access granularity for 1/1/4-byte elements. distinct = distinct cases; non-trivial = at least one schedule returned / matcher said True"
 )
 ASSUMPTIONS = [
     "'addresses the operand the way the template does' = same index subspace (row space over Q) of the inner dims, the rule the matcher documents",
